@@ -169,6 +169,12 @@ def gen_cases(rng, tier):
         cases.append(_sim("rlimit-representation", plain, ["rlimit", 2, pair]))
     # the status parser alone: arbitrary lines before the key line, arbitrary text after it
     cases.extend(_status_cases(rng, 60 if tier == "quick" else 1500 if tier == "thorough" else 200))
+    # ---------------- the handle is psutil.Process() of the worker itself: the native calls must get that pid, never 0 / "self"
+    for req in (["nice", None], ["nice", 4], ["ionice", None, None], ["ionice", 2, 3], ["aff", None], ["aff", [1, 3]],
+                ["rlimit", 7, None], ["rlimit", 7, [100, 4096]]):
+        c = _sim("own-pid", plain, req, nice=1, ioprio=(2 << 13) | 5, extra_by=False)
+        c["own"] = True
+        cases.append(c)
     # ---------------- handle histories: Process / Popen objects whose pid is gone, recycled or still the same process
     cases.extend(_hist_cases(rng, tier))
     # ---------------- random states / requests
@@ -416,6 +422,36 @@ def _live_cases(rng, tier):
                 c = _live("live-rlimit-raise-hard", elig, ncpu, ["rlimit", res, pair], rlim=base)
                 c["fresh"] = True
                 out.append(c)
+    out.extend(_fork_cases(m, base))
+    return out
+
+
+def _fork_cases(m, base):
+    """parent = the worker (pid 1000 in the model) creates psutil.Process() for itself and forks; the child (1001) gives itself
+    other settings and calls through the inherited handle: the call must read / change the PARENT"""
+    elig, ncpu = m["elig"], m["ncpu"]
+    if len(elig) < 3 or base[7][0] < 64:
+        return []
+    nice0 = os.getpriority(os.PRIO_PROCESS, 0)
+    mask0 = sorted(os.sched_getaffinity(0))
+    try:
+        io0 = S.raw_ioprio_get(0)
+    except OSError:
+        return []
+    if m["eff"] or nice0 > 10 or len(mask0) < 3:
+        return []
+    soft, hard = base[7]
+    child_rl = [list(x) for x in base]
+    child_rl[7] = [soft - 7, hard]
+    reqs = [["rlimit", 7, None], ["nice", None], ["aff", None], ["ionice", None, None],
+            ["rlimit", 7, [soft - 11, hard]], ["aff", mask0[1:3]], ["ionice", 2, 5]]
+    if m["caps"]["nice"]:
+        reqs.append(["nice", nice0 + 1])
+    out = []
+    for req in reqs:
+        procs = [_proc(1000, elig, mask0, nice0, io0, base), _proc(1001, elig, mask0[:1], nice0 + 3, (2 << 13) | 1, child_rl)]
+        out.append({"kind": "fork", "cls": "fork-" + ("get" if req[-1] is None else "set"), "ncpu": ncpu, "nr": 1024, "procs": procs,
+                    "pid": 1000, "req": req, "caps": dict(m["caps"]), "nr_open": m["nr_open"], "ioget_eff": m["eff"]})
     return out
 
 
@@ -699,6 +735,10 @@ def judge(case, coq, impl):
     m = coq["model"][0]
     if isinstance(m, dict) and m.get("t") == "OutOfModel":
         return Verdict("skip", "OutOfModel")
+    if len(impl) > 4:
+        if impl[4] is not True:
+            return Verdict("violation", "a native call was issued with a pid other than the handle's: %r" % (impl[4],))
+        impl = impl[:4]
     if coq["spec"] is not None and impl[:3] != coq["spec"]:
         return Verdict("violation", "impl != spec")
     if impl != coq["model"]:
@@ -767,6 +807,11 @@ def impl_run(case, coq, env):
         return _run_status(case, coq, env)
     if case["kind"] == "hist":
         return _run_hist(case, coq, env)
+    if case["kind"] == "fork":
+        import platform
+        if platform.machine() != "x86_64" or os.geteuid() != 0:
+            return T("Skip", "live cases need root on x86_64")
+        return _run_fork(case, coq, env)
     import platform
     if platform.machine() != "x86_64" or os.geteuid() != 0:
         return T("Skip", "live cases need root on x86_64")
@@ -913,26 +958,116 @@ def _run_sim(case, coq, env):
         fp.add(pr["pid"], comm=b"sleep")
         if pr["pid"] in status:
             fp.write(pr["pid"], "status", status[pr["pid"]])
-    sk = S.SimKernel(case)
+    tpid = case["pid"]
+    kc = case
+    if case.get("own"):
+        # the target is this very process: its pid appears in the fake tree and in the simulated kernel
+        import copy
+        tpid = os.getpid()
+        kc = copy.deepcopy(case)
+        for pr in kc["procs"]:
+            if pr["pid"] == case["pid"]:
+                pr["pid"] = tpid
+        fp.add(tpid, comm=b"python")
+        if case["pid"] in status:
+            fp.write(tpid, "status", status[case["pid"]])
+    sk = S.SimKernel(kc)
     saved = [(cext_posix, "getpriority"), (cext_posix, "setpriority"), (cext, "proc_ioprio_get"), (cext, "proc_ioprio_set"),
              (cext, "proc_cpu_affinity_get"), (cext, "proc_cpu_affinity_set"), (resource, "prlimit")]
     orig = [(m, n, getattr(m, n)) for m, n in saved]
     try:
         for m, n in saved:
             setattr(m, n, getattr(sk, n))
-        p = psutil.Process(case["pid"])
-        elig = _out(p._proc._get_eligible_cpus, _conv)
+        p = psutil.Process() if case.get("own") else psutil.Process(case["pid"])
+        elig = _out(p._proc._get_eligible_cpus, _conv, {tpid: case["pid"]})
         try:
-            res = _out(_call(p, case["req"], case.get("form", "pos"), case), _conv)
+            res = _out(_call(p, case["req"], case.get("form", "pos"), case), _conv, {tpid: case["pid"]})
         except S.OutOfModel as e:
             return T("Skip", str(e))
-        got = _out(_get_call(p, case["req"]), _conv)
+        got = _out(_get_call(p, case["req"]), _conv, {tpid: case["pid"]})
     except S.OutOfModel as e:
         return T("Skip", str(e))
     finally:
         for m, n, f in orig:
             setattr(m, n, f)
-    return [res, got, sk.dump(), elig]
+    dump = [[case["pid"] if e[0] == tpid else e[0]] + e[1:] for e in sk.dump()]
+    wrong = sorted(set(q for q in sk.pids if q != tpid))
+    return [res, got, dump, elig, True if not wrong else wrong]
+
+
+def _run_fork(case, coq, env):
+    """the worker creates psutil.Process() for itself and forks; the child gives itself the settings of model process 1001 and calls
+    through the inherited handle; it reports through a pipe what the kernel says about the parent and about itself afterwards"""
+    import json
+    import resource
+    import psutil
+    psutil.PROCFS_PATH = "/proc"
+    try:
+        psutil._pmap.clear()
+        psutil._pids_reused.clear()
+    except Exception:
+        pass
+    req = case["req"]
+    par, chi = case["procs"]
+    me = os.getpid()
+
+    def observe(pid):
+        return {"nice": os.getpriority(os.PRIO_PROCESS, pid), "ioprio": S.raw_ioprio_get(pid),
+                "mask": sorted(os.sched_getaffinity(pid)), "rlim": [[S.u64(x) for x in resource.prlimit(pid, r)] for r in range(16)]}
+
+    def state_of(st):
+        return {"nice": st["nice"], "ioprio": S.reported_ioprio(case["ioget_eff"], st["ioprio"], st["nice"]), "mask": st["mask"],
+                "rlim": st["rlim"]}
+    mine = observe(me)
+    if mine != state_of(par):
+        return T("Skip", "the worker is not in the start state the case was generated for")
+    p = psutil.Process()                      # created in the parent, for the parent
+    r, w = os.pipe()
+    child = os.fork()
+    if child == 0:
+        try:
+            os.close(r)
+            cpid = os.getpid()
+            os.setpriority(os.PRIO_PROCESS, 0, chi["nice"])
+            S.raw_ioprio_set(cpid, chi["ioprio"])
+            os.sched_setaffinity(0, chi["mask"])
+            resource.setrlimit(7, (S.rlim2py(chi["rlim"][7][0]), S.rlim2py(chi["rlim"][7][1])))
+            before = [observe(me), observe(cpid)]
+            pidmap = {me: par["pid"], cpid: chi["pid"]}
+            elig = _out(p._proc._get_eligible_cpus, _conv, pidmap)
+            res = _out(_call(p, req, case.get("form", "pos"), case), _conv, pidmap)
+            got = _out(_get_call(p, req), _conv, pidmap)
+            after = [observe(me), observe(cpid)]
+            os.write(w, json.dumps({"before": before, "after": after, "res": res, "got": got, "elig": elig}).encode())
+        except BaseException as e:  # noqa
+            import traceback
+            os.write(w, json.dumps({"error": traceback.format_exc()[-1500:]}).encode())
+        finally:
+            os._exit(0)
+    os.close(w)
+    data = b""
+    while True:
+        b = os.read(r, 65536)
+        if not b:
+            break
+        data += b
+    os.close(r)
+    os.waitpid(child, 0)
+    # put the worker back where it was
+    try:
+        os.setpriority(os.PRIO_PROCESS, 0, mine["nice"])
+        S.raw_ioprio_set(me, par["ioprio"])
+        os.sched_setaffinity(0, mine["mask"])
+        resource.setrlimit(7, (S.rlim2py(mine["rlim"][7][0]), S.rlim2py(mine["rlim"][7][1])))
+    except OSError:
+        pass
+    rep = json.loads(data.decode())
+    if "error" in rep:
+        raise RuntimeError("fork child failed: " + rep["error"])
+    if rep["before"] != [state_of(par), state_of(chi)]:
+        return T("Skip", "could not bring parent and child into the start state")
+    dump = [[st["pid"], a["nice"], a["ioprio"], a["mask"], list(st["elig"]), a["rlim"]] for st, a in zip((par, chi), rep["after"])]
+    return [rep["res"], rep["got"], dump, rep["elig"]]
 
 
 _live_state = {}
